@@ -10,7 +10,7 @@ def run(tier, seed, jobs):
     if tier == "quick":
         configs = [
             {"mod": MOD, "cls": "EventModel", "params": {"n": 3}, "opts": o},
-            {"mod": MOD, "cls": "CondModel", "params": {"n": 3, "notify": [1, 2]}, "opts": o,
+            {"mod": MOD, "cls": "CondModel", "params": {"n": 3, "notify": [0, 1, 2]}, "opts": o,
              "max_depth": 5},
         ]
     else:
